@@ -336,7 +336,7 @@ NO_ORACLE = "(o (none) (extra))"
 
 def stage_histories(ctx, rng, gcat, gmodel):
     tier = ctx["tier"]
-    ncases = 36 if tier == "quick" else 600
+    ncases = 120 if tier == "quick" else 1500
     cases, metas = [], []
     for i in range(ncases):
         cols_i, rows_i = Intern(), Intern()
